@@ -666,6 +666,14 @@ class Engine:
                 return [(("ref", ("loc", loc[1], loc[2] + (("d", "Some"), ("f", "0", 0, "std::option::Option"))), True), None)]
             r_ = ("ref", ("loc", loc[1], loc[2] + (("d", "Some"), ("f", "0", 0, "std::option::Option"))), True)
             return [(r_, [(("isvar", cur, "None"), True)], [(loc, newv)]), (r_, [(("isvar", cur, "Some"), True)])]
+        if re.search(r"mem::replace::<.*>$|mem::replace$", nm) and len(args) == 2 and args[0][0] == "ref":
+            loc = args[0][1]
+            old_v = self.read_loc(path, loc)
+            return [(old_v, None, [(loc, args[1])])]
+        if re.search(r"mem::take::<.*>$", nm) and len(args) == 1 and args[0][0] == "ref":
+            loc = args[0][1]
+            old_v = self.read_loc(path, loc)
+            return [(old_v, None, [(loc, ("app", "Default::default", ()))])]
         if re.search(r"Option::<.*>::(unwrap|expect|unwrap_unchecked)$", nm):
             v = self.deref_val(path, args[0])
             kv = self.known_variant(path, v)
@@ -1109,6 +1117,47 @@ class Engine:
                     continue
                 sp.events.append(("entry-insert", bb, ent, r))
                 outs.append(finish(sp, ("ref", ("loc", r, ()), True)))
+            return outs
+        m = re.search(r"iter::Iterator>::collect(::<.*>)?$", nm)
+        if m and args and "collect" in str(self.desugar):
+            # collecting a lazily mapped/filtered iterator: one path for the finished collection (an opaque value, or its
+            # Ok/Some form when collecting into a Result/Option), one path that produces one element (the adaptor closures run on
+            # a fresh item; the element is recorded as a "collect-item" event) and goes on to the next; an element that is an Err
+            # (None) ends a collection into Result (Option) with that value
+            src = self.deref_val(path, args[0]) if args[0][0] == "ref" else args[0]
+            if src[0] != "app" or not re.search(r"iter::Iterator>::(map|filter_map|filter|enumerate|cloned|copied)", str(src[1])):
+                return None
+            dty = (t.get("dest") or {}).get("ty", "")
+            into_res, into_opt = dty.startswith("std::result::Result<"), dty.startswith("std::option::Option<")
+            item = ("sym", "item@bb%d" % bb)
+            outs = []
+            p0 = path.fork()
+            whole = ("app", nm, (src,))
+            p0.events.append(("iter-exhausted", bb, nm, src))
+            outs.append(finish(p0, ("adt", RES, "Ok", (whole,)) if into_res else (("adt", OPT, "Some", (whole,)) if into_opt else whole)))
+            path.events.append(("iter-item", bb, nm, src, item))
+            for el, pe in self.iter_elements(path, bb, src, item):
+                if el is None:
+                    outs.append(cut(pe))
+                    continue
+                if el == ("dead",):
+                    outs.append(dead(pe))
+                    continue
+                if into_res or into_opt:
+                    good_v, bad_v = ("Ok", "Err") if into_res else ("Some", "None")
+                    kv = self.known_variant(pe, el)
+                    if kv == bad_v:
+                        outs.append(finish(pe, el))
+                        continue
+                    if kv != good_v:
+                        pb = pe.fork()
+                        self.assume(pb, ("isvar", el, bad_v), True)
+                        outs.append(finish(pb, el if el[0] == "adt" else (("adt", RES, "Err", (("field", ("downcast", el, "Err"), "0"),)) if into_res else ("adt", OPT, "None", ()))))
+                        self.assume(pe, ("isvar", el, good_v), True)
+                    pe.events.append(("collect-item", bb, ("field", ("downcast", el, good_v), "0") if el[0] != "adt" else el[3][0], el))
+                else:
+                    pe.events.append(("collect-item", bb, el, el))
+                outs.append(cut(pe))
             return outs
         m = re.search(r"iter::Iterator>::(try_fold|fold)(::<.*>)?$", nm)
         if m and len(args) == 3:
